@@ -262,7 +262,7 @@ CHECKS["C14"] = {
          "params": {"quick": grid(n=[0, 1, 2, 3, 4]), "thorough": grid(n=[0, 1, 2, 3, 4, 5, 6])}, "cover": []},
         {"name": "namespace", "pkg": "internal/state", "pkgname": "state", "entry": "VerifC14Namespace",
          "files": ["zz_verif_c14.go", "zz_verif_c17.go"] + STATE_FILES, "with": ["verifdb"], "gen_stubs": [TX_STUB],
-         "params": {"quick": grid(k=[1, 2], holes=[0], lsub=[1]) + grid(k=[1], holes=[1], lsub=[1]), "thorough": grid(k=[3], holes=[0], lsub=[1]) + grid(k=[2], holes=[1], lsub=[1])}, "cover": []},
+         "params": {"quick": grid(k=[1, 2], holes=[0], lsub=[1]) + grid(k=[1], holes=[1], lsub=[1]), "thorough": grid(k=[3], holes=[0], lsub=[0]) + grid(k=[2], holes=[1], lsub=[1])}, "cover": []},
         {"name": "list", "pkg": "internal/state", "pkgname": "state", "entry": "VerifC14List",
          "files": ["zz_verif_c14.go", "zz_verif_c17.go"] + STATE_FILES, "with": ["verifdb"], "gen_stubs": [TX_STUB],
          "params": {"quick": [{}], "thorough": [{}]}, "cover": ["list-done"]},
